@@ -15,6 +15,10 @@ model schedule: one `Sched.step true` per logged `is_connected`, `send`, handler
 `refuse` (handler decides, `is_connected`[+`pre_disconnect`], send of the refusal, `manager.disconnect`);
 under always_connect the CONNECT packet it sends BEFORE the handler is not a model step.
 `run_async_schedules(ctx)` is called by harness/props/c04.py.
+
+`run_residue_schedules(ctx)` (called by harness/props/c11.py) uses the same scheduler for C11: group emits in flight
+while the transport of a member (first / middle / last in the iteration order: cfg['emit_order']) is lost, judged at
+quiescence by a model-free residue probe (cfg['residue']: `AsyncRun._residue_probe`, `residue_oracle`).
 """
 import asyncio
 import contextvars
@@ -156,12 +160,18 @@ class AsyncRun:
         w.eio.send_packet = send_packet
 
         self.emit_kinds = [x for x in self.side if x in SIDE_EMIT]
+        # C11 (run_residue_schedules): the object graph of the server with its handlers, before any client
+        self.fresh_slots = graph_probe(w.sio).graph_slots() if cfg.get('residue') else None
+        emit_order = None
         if self.emit_kinds:
             if cfg.get('conn'):
                 raise C.Infra('an emit side task needs the session under test connected from the start')
-            # the other client comes EARLIER than the session under test in every iteration over the namespace
-            w.open('T2')
-            w.recv('T2', '0')
+            # default: the other client comes EARLIER than the session under test in every iteration over the namespace;
+            # cfg['emit_order'] puts the session under test (T1) first / in the middle / last
+            emit_order = list(cfg.get('emit_order') or (['T2', 'T1'] + (['T4'] if cfg.get('emit_after') else [])))
+            for t in emit_order[:emit_order.index('T1')]:
+                w.open(t)
+                w.recv(t, '0')
         w.open('T1')
         if cfg.get('conn'):
             w.recv('T1', '0/b,')
@@ -171,9 +181,11 @@ class AsyncRun:
         if (cfg.get('others') or 'bystander_disconnect' in self.side) and 'T2' not in w.socks:
             w.open('T2')
             w.recv('T2', '0')
-        if self.emit_kinds and cfg.get('emit_after'):
-            w.open('T4')
-            w.recv('T4', '0')
+        if emit_order:
+            for t in emit_order[emit_order.index('T1') + 1:]:
+                if t not in w.socks:
+                    w.open(t)
+                    w.recv(t, '0')
         if 'bystander_refused' in self.side:
             w.open('T3')
         self.mgr = mgr = sio.manager
@@ -191,7 +203,7 @@ class AsyncRun:
         self.sid2 = mgr.sid_from_eio_sid('T2', '/') if 'T2' in w.socks else None
         self.emit_args = {}
         if self.emit_kinds:
-            order = ['T2', 'T1'] + (['T4'] if 'T4' in w.socks else [])
+            order = emit_order
             sid_of = {t: mgr.sid_from_eio_sid(t, '/') for t in order}
 
             def fill(room, tids):
@@ -548,8 +560,77 @@ class AsyncRun:
             'environ_left': 'T1' in w.sio.environ, 'side': side, 'new_session': new_state, 'emit': emit,
             'stray_calls': {str(k): v for k, v in new_calls.items()},
         }
+        if cfg.get('residue'):
+            obs['residue_probe'] = self._residue_probe()
         w.close()
         return obs
+
+    def _residue_probe(self):
+        """C11, model-free, at quiescence: where the real server still refers to the client whose transport was lost
+        (generic walk of the object graph + the per-client tables by name); then every other client's transport ends too
+        and the object graph is compared with the one the server had before its first client."""
+        w = self.w
+        probe = graph_probe(w.sio)
+        sids = [x for x in self.sids if x]
+        out = {'departed': 'T1', 'session_ids': sids, 'transport_lost': 'lost' in self.cfg['causes'],
+               'tasks_unfinished': [i for i in sorted(self.tasks) if not self.tasks[i].done()]}
+        # generated session ids are reported as <transport>@<namespace>
+        alias = {sid: 'T1@' + NS_NAMES[k] for k, sid in enumerate(self.sids) if sid}
+        for ns, rooms in list(self.mgr.rooms.items()):
+            for sid, t in list(rooms.get(None, {}).items()):
+                alias.setdefault(sid, '%s@%s' % (t, ns))
+
+        def named(d):
+            return {k: sorted(alias.get(x, x) for x in v) for k, v in d.items()}
+        out['session_ids'] = [alias[x] for x in sids]
+        out['mentions'] = probe.mentions('T1', sids)
+        out['tables'] = named(named_residue(w.sio, 'T1', sids))
+        for t in sorted(w.socks):
+            if t != 'T1' and not getattr(w.socks[t], 'closed', False):
+                w.lose(t)
+        self.quiesce()
+        out['growth_after_all_left'] = probe.graph_slots() - self.fresh_slots
+        out['tables_after_all_left'] = named(named_residue(w.sio))
+        return out
+
+
+def graph_probe(sio):
+    """the generic object-graph walk of harness/server_sim.py (`Runner._walk` / `mentions` / `graph_slots`: names no
+    attribute of the library), on any real server — the same walk C11's histories use"""
+    from . import server_sim
+
+    class GraphProbe:
+        _walk = server_sim.Runner._walk
+        mentions = server_sim.Runner.mentions
+        graph_slots = server_sim.Runner.graph_slots
+
+        def __init__(self, sio_):
+            self.sio = sio_
+    return GraphProbe(sio)
+
+
+def named_residue(sio, tid=None, sids=None):
+    """the per-client tables of C11's statement, by name (second opinion next to the generic walk; a table that does not
+    exist is skipped): outstanding callbacks, ack counters, pending marks, rooms, environ, binary buffers.
+    With tid/sids: the entries that refer to them; without: every entry left."""
+    mgr = sio.manager
+    want = None if sids is None else set(sids)
+    out = {}
+
+    def keep(name, keys):
+        keys = [k for k in keys if want is None or k in want or k == tid]
+        if keys:
+            out[name] = sorted(map(str, keys))
+    keep('callbacks', list(getattr(mgr, 'callbacks', {}) or {}))
+    keep('ack_counters', list(getattr(mgr, 'ack_counters', {}) or {}))
+    keep('pending_disconnect', [x for v in (getattr(mgr, 'pending_disconnect', {}) or {}).values() for x in v])
+    keep('rooms', [x for rooms in (getattr(mgr, 'rooms', {}) or {}).values() for room in rooms.values() for x in room])
+    keep('rooms(transport)', [x for rooms in (getattr(mgr, 'rooms', {}) or {}).values() for room in rooms.values()
+                              for x in room.values()])
+    keep('eio_to_sid', list(getattr(mgr, 'eio_to_sid', {}) or {}))
+    keep('environ', list(getattr(sio, 'environ', {}) or {}))
+    keep('binary_packet', list(getattr(sio, '_binary_packet', {}) or {}))
+    return out
 
 
 def explore(cfg):
@@ -1067,6 +1148,125 @@ def run_async_schedules(ctx):
                            'send and every application connect/disconnect handler and observes that nothing runs between '
                            'is_connected and pre_disconnect (checked per schedule)')
     return stats
+
+
+# ---------------------------------------------------------------------------------- C11: residue after in-flight emits
+
+EMIT_POSITIONS = {'first': ['T1', 'T2', 'T4'], 'middle': ['T2', 'T1', 'T4'], 'last': ['T2', 'T4', 'T1']}
+
+
+def residue_oracle(obs):
+    """C11 on what the real AsyncServer holds at quiescence (every suspended write / handler released, every task over):
+    nothing refers to the client whose transport was lost — whatever operation was in flight when its clean-up ran —
+    and once every client has gone the server is indistinguishable from the one that had not seen a client yet."""
+    p = obs.get('residue_probe') or {}
+    fails = []
+    who = 'the departed client (transport %s, session ids %s)' % (p.get('departed'), p.get('session_ids'))
+    if p.get('tasks_unfinished'):
+        fails.append('tasks %r never finished: no quiescence, the residue cannot be judged' % (p['tasks_unfinished'],))
+    if p.get('transport_lost'):
+        if p.get('mentions'):
+            fails.append('after the loss of its transport and quiescence the server still refers to %s in %s'
+                         % (who, p['mentions']))
+        if p.get('tables'):
+            fails.append('per-client tables still hold entries for %s: %r' % (who, p['tables']))
+    if p.get('growth_after_all_left') or p.get('tables_after_all_left'):
+        fails.append('every client is gone but the server differs from the freshly started one: its object graph grew by %r '
+                     'container slots; tables left: %r' % (p.get('growth_after_all_left'), p.get('tables_after_all_left')))
+    return fails
+
+
+def run_residue_schedules(ctx):
+    """C11 under concurrency: an emit to a group (room / list of rooms / namespace / room with callback) is in flight —
+    every transport write it makes suspended on a gate of its own — while the transport of one member is LOST (alone, or
+    together with a client DISCONNECT / disconnect() of the same session); the departed member first, in the middle, last
+    in the iteration order of the group.  After quiescence the model-free residue probe (`AsyncRun._residue_probe`) is
+    judged by `residue_oracle`.  Oracle only.  Reports through ctx (coverage keys `residue_*`)."""
+    st = {'runs': 0, 'window': 0, 'late': 0, 'per_config': {}, 'samples': [], 'fails': 0}
+
+    def cfg_of(causes, kind, pos, mode):
+        return {'causes': list(causes), 'mode': mode, 'others': False, 'conn': False, 'side': [kind],
+                'emit_order': list(pos if isinstance(pos, list) else EMIT_POSITIONS[pos]), 'residue': True}
+
+    def judge(cfg, obs):
+        st['runs'] += 1
+        e = (obs.get('emit') or {}).get(cfg['side'][0]) or {}
+        if e.get('writes_pending_at_end'):
+            st['window'] += 1           # the session ended while writes of the emit were still pending
+        if any(wr['session_ended_before'] for wr in e.get('writes') or []):
+            st['late'] += 1
+        fails = residue_oracle(obs)
+        if fails and st['fails'] < 3:
+            st['fails'] += 1
+            ctx.violation('oracle', 'asyncio schedule (an emit in flight while a member\'s transport is lost) leaves state for a '
+                          'client that is gone: %s' % fails,
+                          {'kernel': 'sched_residue', 'cfg': cfg, 'sched': obs['sched'], 'oracle': fails,
+                           'residue_probe': obs['residue_probe'], 'emit': obs.get('emit')})
+        if len(st['samples']) < 3 and e.get('writes_pending_at_end') and st['window'] % 211 == 1:
+            st['samples'].append({'cfg': cfg, 'sched': obs['sched'], 'writes_pending_when_the_session_ended':
+                                  e['writes_pending_at_end'], 'residue_probe': obs['residue_probe']})
+
+    def run_cfgs(cfgs, sample=None):
+        for cfg in cfgs:
+            if st['fails'] >= 3:
+                return
+            it = explore(cfg) if sample is None else (random_schedule(cfg, ctx.rng) for _ in range(sample))
+            n = 0
+            for obs in it:
+                n += 1
+                judge(cfg, obs)
+                if st['fails'] >= 3:
+                    break
+            pos = [k for k, v in EMIT_POSITIONS.items() if v == cfg['emit_order']]
+            key = '+'.join(cfg['causes']) + '/' + cfg['mode'] + '/' + cfg['side'][0] + '/departed-' + \
+                (pos[0] if pos else 'in-' + '-'.join(cfg['emit_order'])) + ('/sampled' if sample else '')
+            st['per_config'][key] = st['per_config'].get(key, 0) + n
+            ctx.count('residue_sched:' + cfg['side'][0], n)
+            ctx.count('residue_sched_causes:' + '+'.join(cfg['causes']), n)
+
+    two = [['client', 'lost'], ['api', 'lost']]
+    positions = list(EMIT_POSITIONS)
+    # one cause: every release order
+    run_cfgs([cfg_of(['lost'], k, pos, 'both') for k in SIDE_EMIT for pos in positions])
+    if ctx.thorough:
+        run_cfgs([cfg_of(['lost'], k, pos, md) for k in SIDE_EMIT for pos in positions for md in ('handler', 'send')])
+        run_cfgs([cfg_of(cs, 'callback_emit', pos, 'both') for cs in two for pos in positions])
+        run_cfgs([cfg_of(cs, k, order, 'both') for cs in two for k in SIDE_EMIT if k != 'callback_emit'
+                  for order in (['T1', 'T2'], ['T2', 'T1'])])
+    else:
+        run_cfgs([cfg_of(cs, 'callback_emit', pos, 'both') for cs in two for pos in positions], sample=20)
+        run_cfgs([cfg_of(cs, k, ctx.rng.choice(positions), 'both') for cs in two for k in SIDE_EMIT if k != 'callback_emit'],
+                 sample=10)
+    cov = ctx.coverage
+    cov['residue_schedules'] = st['runs']
+    cov['residue_schedules_session_ended_while_writes_pending'] = st['window']
+    cov['residue_schedules_per_config'] = st['per_config']
+    cov['residue_samples'] = st['samples']
+    cov['residue_rule'] = (
+        'ORACLE ONLY, real AsyncServer under the controlled scheduler of harness/sched_async.py: sio.emit to room R / '
+        'to=[R1, R2] / the namespace / room R with a callback as a task of its own, every eio.send_packet made for it '
+        'suspended on its own gate, racing the LOSS OF THE TRANSPORT of one member of the addressed group (3 members; the '
+        'departed one first / middle / last in the iteration order), disconnect handlers suspended too; one cause: all '
+        'release orders' + ('; transport loss together with a client DISCONNECT or disconnect() of the same session: all '
+        'release orders for the callback emit, 2-member groups for the other kinds' if ctx.thorough else
+        '; transport loss together with a client DISCONNECT or disconnect() of the same session: sampled') +
+        '. After quiescence: the generic object-graph walk of the real server (the one the histories use) finds no reference '
+        'to the departed transport or its session ids; callbacks / ack counters / pending marks / rooms / environ / binary '
+        'buffers hold nothing for it; after the other clients left too the object graph has the size it had before the '
+        'first client')
+    cov['evaluations'] = cov.get('evaluations', 0) + st['runs']
+    cov['traces_validated_against_impl'] = cov.get('traces_validated_against_impl', 0) + st['runs']
+    return st
+
+
+def replay_residue(ctx, rep):
+    obs = replay_schedule(rep['cfg'], rep['sched'])
+    print('schedule:      ', json.dumps(obs['sched']))
+    print('emit:          ', json.dumps(obs.get('emit'), default=str))
+    print('residue probe: ', json.dumps(obs['residue_probe'], default=str))
+    fails = residue_oracle(obs)
+    print('oracle:        ', 'holds' if not fails else fails)
+    return 1 if fails else 0
 
 
 def replay(ctx, rep):
